@@ -5,7 +5,8 @@ CONSTANTS
   BaseSeq <- BasesAll
   WrapSeq <- WrapsAll
   RenSeq <- RenCat
-  DocSet <- DocBoth
+  DocSet <- DocAll
+  IntFull = FALSE
   Family = "rot"
   MaxFields = 6
   MaxDepth = 3
